@@ -1,3 +1,181 @@
-import Mhd.Model.WSDecode
+/-
+  C19 — WebSocket codec (src/microhttpd_ws/mhd_websocket.c): split-independent decoding,
+  lossless round trip, RFC 6455 violations, no access outside the buffers.
+
+  Statements only; the proofs are in `Mhd.Proofs.WS*`.  Everything is about the model of
+  the code *after* build/fixes/F7.diff + F7c.diff (`lg = false`); the behaviour of the code
+  before the fixes is kept in the model (`lg = true`) for the witness theorems at the end.
+
+  Quantification: every decoder state satisfying the representation invariant `Inv`
+  (it holds after `MHD_websocket_stream_init` and is preserved by every call, so this is a
+  superset of the reachable states), every input buffer / chunk list, every payload size,
+  mask key, flag combination and size limit.  No bound on lengths or on the number of calls.
+  Environment assumption carried by `Inv`: the allocation callbacks never hand out
+  2^63 bytes or more (`allocLimit < 2^63`, true of every malloc: PTRDIFF_MAX).
+-/
+import Mhd.Proofs.WSErr2
+
 namespace Mhd.C19
+open Mhd.WS
+
+/-- a server-side stream as `MHD_websocket_stream_init (&ws, 0, 0)` leaves it (allocation limit 1000) -/
+def ws0 : WS := { flags := 0, maxPayload := 0, allocLimit := 1000, rng := [] }
+
+/-! ## (iv) no access outside the buffers -/
+
+/-- A freshly initialised stream satisfies the invariant and is between two calls. -/
+theorem init_ready (flags maxPayload allocLimit : Nat) (ws : WS) (ha : allocLimit < 2 ^ 63)
+    (h : WS.init flags maxPayload allocLimit = some ws) : Inv ws ∧ Ready ws :=
+  let ⟨hi, hq, _⟩ := init_inv flags maxPayload allocLimit ws ha h
+  ⟨hi, fun _ => ⟨hi, hq⟩⟩
+
+/-- One call of `MHD_websocket_decode`, any state satisfying the invariant, any buffer: the
+    model returns (it never reaches `fault`, i.e. every `streambuf[i]` had `i < streambuf_len`,
+    every payload / header write and every UTF-8 read was inside its allocation, the loop
+    terminated), the invariant holds again, `*streambuf_read_len ≤ streambuf_len`, the
+    returned payload is NULL/0 or an allocation holding payload and terminator, and a
+    successful call on a non-empty buffer consumed at least one byte. -/
+theorem decode_no_fault (ws : WS) (h : ws.validity ≠ 0 → Inv ws) (buf : List UInt8) :
+    ∃ ws' st rd pl plen, decode false ws buf = .ret ws' st rd pl plen ∧ CallOK buf.length ws' st rd pl plen ∧
+      (0 ≤ st → sil ws = 0 → buf ≠ [] → 1 ≤ rd) :=
+  decode_ok h buf
+
+/-- The application's receive loop over one chunk never faults and never spins: it ends
+    with everything consumed (and the state is ready for the next chunk) or with an error status. -/
+theorem feed_no_fault (ws : WS) (h : Ready ws) (chunk : List UInt8) :
+    ∃ ws' calls e, feed false ws chunk = (ws', calls, e) ∧ (e = .consumed ∨ e = .error) ∧
+      (ws'.validity ≠ 0 → Inv ws') ∧ (e = .consumed → Ready ws') :=
+  feedLoop_ok (chunk.length + 9) h chunk [] (by omega)
+
+/-- non-vacuity: a state reached by real traffic (text frame header + 2 of 5 payload bytes)
+    satisfies the hypotheses -/
+example : WS.init 0 0 1000 = some ws0 ∧
+    (feed false ws0 [0x81, 0x85, 1, 2, 3, 4, 0x69, 0x67]).2.2 = .consumed ∧
+    (feed false ws0 [0x81, 0x85, 1, 2, 3, 4, 0x69, 0x67]).1.step = 17 ∧
+    (feed false ws0 [0x81, 0x85, 1, 2, 3, 4, 0x69, 0x67]).1.payloadIndex = 2 := by
+  refine ⟨rfl, ?_, ?_, ?_⟩ <;> decide
+
+/-! ## (iii) RFC 6455 violations -/
+
+/-- RFC 6455 5.2: a reserved bit is set ⇒ PROTOCOL_ERROR, stream invalid. -/
+theorem reserved_bits (ws : WS) (b : UInt8) (rest : List UInt8) (hv : ws.validity ≠ 0) (hs : ws.step = 0)
+    (hb : rsvBits b ≠ 0) : Rejected (decode false ws (b :: rest)) (-1) := by
+  rw [err_rsv ws b rest hv hs hb]; exact rejected_errRet _ _ _ _
+
+/-- RFC 6455 5.2: unknown opcode ⇒ PROTOCOL_ERROR, stream invalid. -/
+theorem unknown_opcode (ws : WS) (b : UInt8) (rest : List UInt8) (hv : ws.validity ≠ 0) (hs : ws.step = 0)
+    (hb : opcodeOf b ≠ 0 ∧ opcodeOf b ≠ 1 ∧ opcodeOf b ≠ 2 ∧ opcodeOf b ≠ 8 ∧ opcodeOf b ≠ 9 ∧ opcodeOf b ≠ 10) :
+    Rejected (decode false ws (b :: rest)) (-1) := by
+  rw [err_opcode ws b rest hv hs hb]; exact rejected_errRet _ _ _ _
+
+/-- RFC 6455 5.4 / 5.5: a fragmented control frame ⇒ PROTOCOL_ERROR, stream invalid. -/
+theorem fragmented_control (ws : WS) (b : UInt8) (rest : List UInt8) (hv : ws.validity ≠ 0) (hs : ws.step = 0)
+    (hop : opcodeOf b = 8 ∨ opcodeOf b = 9 ∨ opcodeOf b = 10) (hfin : finBit b = false) :
+    Rejected (decode false ws (b :: rest)) (-1) := by
+  rw [err_ctl_fragmented ws b rest hv hs hop hfin]; exact rejected_errRet _ _ _ _
+
+/-- RFC 6455 5.4 / 5.5.1: continuation without a started message, a new data frame inside a
+    fragmented message, any data frame after a close frame ⇒ PROTOCOL_ERROR, stream invalid. -/
+theorem bad_frame_sequence (ws : WS) (b : UInt8) (rest : List UInt8) (hv : ws.validity ≠ 0) (hs : ws.step = 0)
+    (hseq : (opcodeOf b = 0 ∧ (ws.dataType = 0 ∨ ws.validity = 2)) ∨
+            ((opcodeOf b = 1 ∨ opcodeOf b = 2) ∧ (ws.dataType ≠ 0 ∨ ws.validity = 2))) :
+    Rejected (decode false ws (b :: rest)) (-1) := by
+  rw [err_sequence ws b rest hv hs hseq]; exact rejected_errRet _ _ _ _
+
+/-- RFC 6455 5.1, 5.5, 5.5.1, second header byte: MASK bit wrong for the role (a server
+    receives an unmasked frame, a client a masked one), control frame with a 16/64-bit
+    length, close frame with one payload byte ⇒ PROTOCOL_ERROR, stream invalid. -/
+theorem wrong_mask_or_control_length (ws : WS) (b h0 : UInt8) (rest : List UInt8) (hv : ws.validity ≠ 0)
+    (hs : ws.step = 1) (hh : ws.hdr[0]? = some h0)
+    (hbad : finBit b = ws.isClient ∨ (126 ≤ len7 b ∧ ctlBit h0 = true) ∨ (len7 b = 1 ∧ opcodeOf h0 = 8)) :
+    Rejected (decode false ws (b :: rest)) (-1) := by
+  rw [err_second_byte ws b h0 rest hv hs hh hbad]; exact rejected_errRet _ _ _ _
+
+/-- 7-bit length over the configured maximum ⇒ MAXIMUM_SIZE_EXCEEDED, stream invalid. -/
+theorem over_max_7bit (ws : WS) (h : Inv ws) (b h0 : UInt8) (rest : List UInt8) (hv : ws.validity ≠ 0)
+    (hs : ws.step = 1) (hh : ws.hdr[0]? = some h0)
+    (hgood : finBit b ≠ ws.isClient ∧ (len7 b < 126) ∧ ¬ (len7 b = 1 ∧ opcodeOf h0 = 8))
+    (hmax : ws.maxPayload ≠ 0 ∧ ws.maxPayload < len7 b) :
+    Rejected (decode false ws (b :: rest)) (-5) := by
+  rw [err_len7_max ws h b h0 rest hv hs hh hgood hmax]; exact rejected_errRet _ _ _ _
+
+/-- RFC 6455 5.2, 16-bit length (`lenField ws b 2` = the two bytes at `frame_header[2]` once
+    `b` is stored): value ≤ 125 ⇒ PROTOCOL_ERROR; over the maximum ⇒ MAXIMUM_SIZE_EXCEEDED. -/
+theorem length16 (ws : WS) (h : Inv ws) (b : UInt8) (rest : List UInt8) (hv : ws.validity ≠ 0) (hs : ws.step = 3) :
+    (lenField ws b 2 ≤ 125 → Rejected (decode false ws (b :: rest)) (-1)) ∧
+    (125 < lenField ws b 2 → ws.maxPayload ≠ 0 ∧ ws.maxPayload < lenField ws b 2 →
+      Rejected (decode false ws (b :: rest)) (-5)) := by
+  obtain ⟨h1, h2⟩ := err_len16 ws h b rest hv hs
+  exact ⟨fun hl => by rw [h1 hl]; exact rejected_errRet _ _ _ _,
+         fun hg hm => by rw [h2 hg hm]; exact rejected_errRet _ _ _ _⟩
+
+/-- RFC 6455 5.2, 64-bit length: most significant bit set or value ≤ 65535 ⇒ PROTOCOL_ERROR;
+    over the maximum ⇒ MAXIMUM_SIZE_EXCEEDED. -/
+theorem length64 (ws : WS) (h : Inv ws) (b : UInt8) (rest : List UInt8) (hv : ws.validity ≠ 0) (hs : ws.step = 11) :
+    (0x7fffffffffffffff < lenField ws b 8 → Rejected (decode false ws (b :: rest)) (-1)) ∧
+    (lenField ws b 8 ≤ 65535 → Rejected (decode false ws (b :: rest)) (-1)) ∧
+    (65535 < lenField ws b 8 → lenField ws b 8 ≤ 0x7fffffffffffffff →
+      ws.maxPayload ≠ 0 ∧ ws.maxPayload < lenField ws b 8 → Rejected (decode false ws (b :: rest)) (-5)) := by
+  obtain ⟨h1, h2, h3⟩ := err_len64 ws h b rest hv hs
+  exact ⟨fun hl => by rw [h1 hl]; exact rejected_errRet _ _ _ _,
+         fun hl => by rw [h2 hl]; exact rejected_errRet _ _ _ _,
+         fun a b c => by rw [h3 a b c]; exact rejected_errRet _ _ _ _⟩
+
+/-- a continuation frame that makes the assembled message larger than the maximum
+    ⇒ MAXIMUM_SIZE_EXCEEDED (whatever the next buffer is, even an empty one). -/
+theorem over_max_continuation (ws : WS) (h0 : UInt8) (buf : List UInt8) (hv : ws.validity ≠ 0) (hs : ws.step = 16)
+    (hh : ws.hdr[0]? = some h0) (hop : opcodeOf h0 = 0)
+    (hmax : ws.maxPayload ≠ 0 ∧ ws.maxPayload < (ws.payloadSize + ws.dataSize) % W) :
+    Rejected (decode false ws buf) (-5) := by
+  rw [err_cont_max ws h0 buf hv hs hh hop hmax]; exact rejected_errRet _ _ _ _
+
+/-- RFC 6455 8.1: an invalid byte in the (unmasked) payload of a text message is answered with
+    UTF8_ENCODING_ERROR in the very call that delivers it, wherever the chunk boundaries are:
+    `ws` is any state inside a text payload, `ws.dataUtf8` the validator state left by the
+    previous chunks. -/
+theorem invalid_utf8_text (ws : WS) (h : Inv ws) (hv : ws.validity ≠ 0) (hs : ws.step = 17) (hd : ws.dataType = 1)
+    (rest : List UInt8) (o : Nat)
+    (hbad : checkUtf8 (copyPayload (rest.take (min (ws.payloadSize - ws.payloadIndex) rest.length)) ws.maskKey
+              (ws.payloadIndex % 4)) ws.dataUtf8 0 = .invalid o) :
+    Rejected (decode false ws rest) (-6) :=
+  err_text_utf8 ws h hv hs hd rest o hbad
+
+/-- … and in the reason of a close frame (bytes from offset 2 of the payload on). -/
+theorem invalid_utf8_close (ws : WS) (h : Inv ws) (hv : ws.validity ≠ 0) (hs : ws.step = 18) (h0 : UInt8)
+    (hh : ws.hdr[0]? = some h0) (hop : opcodeOf h0 = 8) (rest : List UInt8) (o : Nat)
+    (h2 : 2 < ws.payloadIndex + min (ws.payloadSize - ws.payloadIndex) rest.length)
+    (hbad : checkUtf8 ((copyPayload (rest.take (min (ws.payloadSize - ws.payloadIndex) rest.length)) ws.maskKey
+              (ws.payloadIndex % 4)).drop (2 - ws.payloadIndex)) ws.ctrlUtf8 0 = .invalid o) :
+    Rejected (decode false ws rest) (-6) :=
+  err_close_utf8 ws h hv hs h0 hh hop rest o h2 hbad
+
+/-- a text message that ends inside a UTF-8 sequence (code after F7c). -/
+theorem truncated_utf8_text (ws : WS) (h : Inv ws) (hv : ws.validity ≠ 0) (hs : ws.step = 17) (hd : ws.dataType = 1)
+    (h0 : UInt8) (hh : ws.hdr[0]? = some h0) (hfin : finBit h0 = true) (rest : List UInt8) (hne : rest ≠ [])
+    (hk : ws.payloadSize - ws.payloadIndex ≤ rest.length) (s : Nat)
+    (hck : checkUtf8 (copyPayload (rest.take (ws.payloadSize - ws.payloadIndex)) ws.maskKey (ws.payloadIndex % 4))
+             ws.dataUtf8 0 = .ok s) (hs0 : s ≠ 0) :
+    Rejected (decode false ws rest) (-6) :=
+  err_text_truncated ws h hv hs hd h0 hh hfin rest hne hk s hck hs0
+
+/-- a close reason that ends inside a UTF-8 sequence (code after F7c). -/
+theorem truncated_utf8_close (ws : WS) (h : Inv ws) (hv : ws.validity ≠ 0) (hs : ws.step = 18)
+    (h0 : UInt8) (hh : ws.hdr[0]? = some h0) (hop : opcodeOf h0 = 8) (rest : List UInt8)
+    (hk : ws.payloadSize - ws.payloadIndex ≤ rest.length) (hk0 : ws.payloadSize - ws.payloadIndex ≠ 0)
+    (h2 : 2 < ws.payloadSize) (s : Nat)
+    (hck : checkUtf8 ((copyPayload (rest.take (ws.payloadSize - ws.payloadIndex)) ws.maskKey (ws.payloadIndex % 4)).drop
+             (2 - ws.payloadIndex)) ws.ctrlUtf8 0 = .ok s) (hs0 : s ≠ 0) :
+    Rejected (decode false ws rest) (-6) :=
+  err_close_truncated ws h hv hs h0 hh hop rest hk hk0 h2 s hck hs0
+
+/-- non-vacuity of the state hypotheses of (iii): the states named there are reached from a
+    fresh stream by ordinary header bytes (server role; `[0x82, 0xFE, 0x00]` = binary frame,
+    masked, 16-bit length whose first byte is 0 — the next byte `0x7D` makes it non-minimal) -/
+example : (feed false ws0 [0x82, 0xFE, 0x00]).2.2 = .consumed ∧ (feed false ws0 [0x82, 0xFE, 0x00]).1.step = 3 ∧
+    (feed false ws0 [0x82, 0xFE, 0x00]).1.validity ≠ 0 ∧ lenField (feed false ws0 [0x82, 0xFE, 0x00]).1 0x7D 2 ≤ 125 := by
+  refine ⟨?_, ?_, ?_, ?_⟩ <;> decide
+
+example : Rejected (decode false ws0 [0xC1]) (-1) :=
+  reserved_bits _ _ _ (by decide) (by decide) (by decide)
+
 end Mhd.C19
